@@ -14,8 +14,23 @@ use verif_harness::{hexs, parse_args, quiet_panics, unhexs, Args, Driver, Report
 #[allow(dead_code)]
 mod hist;
 
+/// encoding override 2 of the model driver (ocaml/drv_url.ml ovr_of): scalar values below 256 as one byte, '?' otherwise
+fn latin1ish(s: &str) -> std::borrow::Cow<'_, [u8]> {
+    std::borrow::Cow::Owned(s.chars().map(|c| if (c as u32) < 256 { c as u32 as u8 } else { b'?' }).collect())
+}
+
 fn impl_parse(base: Option<&Url>, input: &str) -> (String, Option<Url>) {
-    let r = std::panic::catch_unwind(std::panic::AssertUnwindSafe(|| Url::options().base_url(base).parse(input)));
+    impl_parse_o(0, base, input)
+}
+
+/// ovr = 0: no encoding override; 2: latin1ish (Coq: C02_parse_Canon_any_override - the result is a fixpoint of the
+/// UTF-8 re-parse for every override, because the override's bytes are percent-encoded with the query set)
+fn impl_parse_o(ovr: u32, base: Option<&Url>, input: &str) -> (String, Option<Url>) {
+    let r = std::panic::catch_unwind(std::panic::AssertUnwindSafe(|| {
+        let o = Url::options().base_url(base);
+        let o = if ovr == 2 { o.encoding_override(Some(&latin1ish)) } else { o };
+        o.parse(input)
+    }));
     match r {
         Ok(r) => (parse_result_token(&r), r.ok()),
         Err(_) => ("panic".to_string(), None),
@@ -138,17 +153,22 @@ struct Px {
 
 impl Px {
     fn one(&mut self, stream: &str, base: Option<&Url>, input: &str) -> Option<Url> {
+        self.one_o(0, stream, base, input)
+    }
+
+    fn one_o(&mut self, ovr: u32, stream: &str, base: Option<&Url>, input: &str) -> Option<Url> {
         let bt = match base {
             Some(b) => url_token(b),
             None => "~".to_string(),
         };
-        let req = format!("parse {} 0 {} {}", self.dbg, bt, hexs(input));
-        let (imp, parsed) = impl_parse(base, input);
+        let req = format!("parse {} {} {} {}", self.dbg, ovr, bt, hexs(input));
+        let (imp, parsed) = impl_parse_o(ovr, base, input);
         if !self.search {
             let model = self.drv.ask_with(&req, url_oracle);
             let sig = if let Some(u) = &parsed {
                 format!(
-                    "ok:{}:{}{}{}",
+                    "ok{}:{}:{}{}{}",
+                    if ovr == 0 { "" } else { "+ovr" },
                     if u.cannot_be_a_base() { "opaque" } else if u.scheme() == "file" { "file" } else if u.is_special() { "special" } else { "other" },
                     if u.has_authority() { "A" } else { "-" },
                     if u.query().is_some() { "Q" } else { "-" },
@@ -182,7 +202,7 @@ impl Px {
     }
 }
 
-fn parse_request(line: &str) -> Option<(Option<Url>, String)> {
+fn parse_request(line: &str) -> Option<(u32, Option<Url>, String)> {
     // "parse <dbg> <ovr> <base token|~> <hex input>"
     let w: Vec<&str> = line.split(' ').collect();
     if w.len() != 5 || w[0] != "parse" {
@@ -195,7 +215,7 @@ fn parse_request(line: &str) -> Option<(Option<Url>, String)> {
         let bytes = verif_harness::unhexb(ser);
         Some(impl_parse(None, std::str::from_utf8(&bytes).ok()?).1?)
     };
-    Some((base, unhexs(w[4])))
+    Some((if w[2] == "2" { 2 } else { 0 }, base, unhexs(w[4])))
 }
 
 fn parse_streams(args: &Args, search: bool) -> Report {
@@ -216,8 +236,8 @@ fn parse_streams(args: &Args, search: bool) -> Report {
     if search {
         if let Ok(txt) = std::fs::read_to_string(&args.file) {
             for l in txt.lines() {
-                if let Some((base, input)) = parse_request(l) {
-                    px.one("differing", base.as_ref(), &input);
+                if let Some((ovr, base, input)) = parse_request(l) {
+                    px.one_o(ovr, "differing", base.as_ref(), &input);
                 }
             }
         }
@@ -253,6 +273,14 @@ fn parse_streams(args: &Args, search: bool) -> Report {
             };
             let r = if rng.chance(2, 3) { relative(&mut rng) } else { structured(&mut rng) };
             px.one("join", Some(&b), &r);
+            // the same join / a parse with an encoding override and a query the override changes (one in four)
+            if i % 8 == 0 {
+                let q = "?\u{e9}k='\"<> \u{100}\u{3b1}`#\u{e9}";
+                let r2 = if r.contains('?') || r.contains('#') { r.clone() } else { format!("{}{}", r, q) };
+                px.one_o(2, "join-override", Some(&b), &r2);
+                let s2 = if s.contains('?') || s.contains('#') { s.clone() } else { format!("{}{}", s, q) };
+                px.one_o(2, "parse-override", None, &s2);
+            }
         }
     }
     px.rep
@@ -404,11 +432,11 @@ fn run_known(args: &Args) -> Report {
 fn run_replay(args: &Args) -> Report {
     let txt = std::fs::read_to_string(&args.file).unwrap_or_default();
     let req = txt.split("\"request\":").nth(1).and_then(|s| s.split('"').nth(1)).unwrap_or("").to_string();
-    if let Some((base, input)) = parse_request(&req) {
+    if let Some((ovr, base, input)) = parse_request(&req) {
         let mut rep = Report::new();
         rep.evaluations = 1;
-        let (imp, parsed) = impl_parse(base.as_ref(), &input);
-        rep.notes.push(format!("input: {:?} base: {:?} -> {}", input, base.as_ref().map(|b| b.as_str().to_string()), imp));
+        let (imp, parsed) = impl_parse_o(ovr, base.as_ref(), &input);
+        rep.notes.push(format!("input: {:?} base: {:?} override: {} -> {}", input, base.as_ref().map(|b| b.as_str().to_string()), ovr, imp));
         match parsed {
             None if imp == "panic" => rep.failures.push((req.clone(), "Url::parse panics".into())),
             Some(u) => {
